@@ -4,6 +4,7 @@ package c21
 import (
 	"fmt"
 	"math"
+	"sort"
 	"testing"
 	"testing/synctest"
 	"time"
@@ -95,10 +96,24 @@ func genScore(r *kit.Rand, mode int) int64 {
 }
 
 type run struct {
-	c      *kit.Case
-	env    *mm.Env
-	m      *mm.Chan
-	detail map[string]any
+	c         *kit.Case
+	env       *mm.Env
+	m         *mm.Chan
+	detail    map[string]any
+	seq       int
+	scoreMode int
+	pool      []string // keys removed by the between-pages part (re-used for adds)
+	ttlBudget int      // how many more "cursor key expires" mutations this case may run
+}
+
+// step executes op against the broker and the reference model.
+func (x *run) step(prefix string, op mm.Op) bool {
+	res := mm.Exec(x.env.Broker, ch, op, "")
+	if _, mis := x.m.Step(op, time.Now().UnixMilli(), res); mis != nil {
+		x.fail(prefix+mis.Class, mis.Msg)
+		return false
+	}
+	return true
 }
 
 func (x *run) fail(cls, msg string) {
@@ -200,11 +215,597 @@ func (x *run) paginate(asc bool, sizeLabel string, next func() int) bool {
 
 func fixed(n int) func() int { return func() int { return n } }
 
+// ---------------------------------------------------------------------------------------------
+// Pagination while the state changes BETWEEN two page requests.
+//
+// Oracle (the part of the statement that survives a changing state, see C22: "all interleavings of
+// publishes, removes, key expirations ... with the client's page requests, for all page sizes"):
+//   - a key that exists from before the first page request until after the last one and was at most
+//     updated is returned at least once, and exactly once when its place in the enumeration order
+//     never changed (value updates, and on ordered channels updates that keep the score);
+//   - nothing is returned that is not in the state at the time of the page request, with exactly the
+//     entry stored at that time (page requests and modifications alternate strictly, nothing runs
+//     concurrently);
+//   - keys added, removed, expired or re-added between the first and the last page request may or may
+//     not appear; an ordered key whose score update carried it ACROSS the cursor of that moment may be
+//     seen twice (it was returned, then moved behind the cursor) or not at all (it was still to come and
+//     moved in front of the cursor: the update itself is what a subscriber gets from the stream);
+//   - every page request is answered at the model's position, with at most Limit entries, a page of an
+//     ordered channel is sorted, the pagination ends.
+
+type pos struct {
+	score int64
+	key   string
+}
+
+// sortsBefore: a is enumerated strictly before b. Unordered channels are aimed at in byte order of
+// the keys (what the memory broker does; only the aim of a mutation depends on it, never a verdict).
+func sortsBefore(a, b pos, ordered, asc bool) bool {
+	if !ordered {
+		return a.key < b.key
+	}
+	if a.score != b.score {
+		if asc {
+			return a.score < b.score
+		}
+		return a.score > b.score
+	}
+	if asc {
+		return a.key < b.key
+	}
+	return a.key > b.key
+}
+
+type between struct {
+	asc   bool
+	label string
+	start map[string]bool   // keys in the state before the first page request
+	open  map[string]string // key -> why its appearance is left open
+	moved map[string]bool   // score changed (ordered), never across the cursor
+	count map[string]int
+	adds  int
+	log   []string
+	pages []pageRec // the last pages read
+}
+
+type pageRec struct {
+	page, limit int
+	cursor      string
+	pubs        []mm.PubView
+}
+
+func (st *between) record(page, limit int, cursor string, pubs []mm.PubView) {
+	if len(st.pages) >= 8 {
+		st.pages = append(st.pages[:0], st.pages[1:]...)
+	}
+	st.pages = append(st.pages, pageRec{page, limit, cursor, pubs})
+}
+
+func (st *between) lastLog(n int) []string {
+	if len(st.log) > n {
+		return st.log[len(st.log)-n:]
+	}
+	return st.log
+}
+
+func (x *run) failB(st *between, cls, msg string) {
+	d := map[string]any{}
+	for k, v := range x.detail {
+		d[k] = v
+	}
+	var pages []string
+	for _, pr := range st.pages {
+		desc := fmt.Sprintf("page %d (limit %d, cursor %q):", pr.page, pr.limit, pr.cursor)
+		for _, p := range pr.pubs {
+			desc += fmt.Sprintf(" (%d,%q)", p.Score, p.Key)
+		}
+		pages = append(pages, mm.Clean(desc))
+	}
+	muts := make([]string, len(st.log))
+	for i, l := range st.log {
+		muts[i] = mm.Clean(l)
+	}
+	d["between_pages"] = map[string]any{"asc": st.asc, "page_sizes": st.label, "mutations": muts, "last_pages": pages, "keys_at_start": len(st.start)}
+	x.c.Violation(cls, mm.Clean(msg), d)
+}
+
+// refreshAll extends the TTL of every key but `except` without changing any entry
+// (KeyModeIfNew + RefreshTTLOnSuppress: the publish is suppressed, only the deadline moves).
+func (x *run) refreshAll(except string) bool {
+	if x.m.Cfg.KeyTTLms == 0 {
+		return true
+	}
+	for _, k := range x.m.SortedKeys(false) {
+		if k == except {
+			continue
+		}
+		if !x.step("mutation-", mm.Op{Kind: "publish", Key: k, Data: "keepalive", KeyMode: "if_new", Refresh: true}) {
+			return false
+		}
+	}
+	return true
+}
+
+// restore brings the state back to `total` keys (re-adding removed keys first) between two paginations.
+func (x *run) restore(total int) bool {
+	m, r := x.m, x.c.R
+	for len(m.State) < total {
+		var k string
+		if len(x.pool) > 0 {
+			i := r.Intn(len(x.pool))
+			k = x.pool[i]
+			x.pool = append(x.pool[:i], x.pool[i+1:]...)
+		} else {
+			x.seq++
+			k = fmt.Sprintf("r%04d", x.seq)
+		}
+		if _, ok := m.State[k]; ok {
+			continue
+		}
+		x.seq++
+		op := mm.Op{Kind: "publish", Key: k, Data: fmt.Sprintf("r%d", x.seq)}
+		if m.Cfg.Ordered {
+			op.Score = genScore(r, x.scoreMode)
+		}
+		if !x.step("mutation-", op) {
+			return false
+		}
+	}
+	for len(m.State) > total {
+		keys := m.SortedKeys(false)
+		k := keys[r.Intn(len(keys))]
+		if !x.step("mutation-", mm.Op{Kind: "remove", Key: k}) {
+			return false
+		}
+		x.pool = append(x.pool, k)
+	}
+	if len(x.pool) > 64 {
+		x.pool = append([]string(nil), x.pool[len(x.pool)-64:]...)
+	}
+	return true
+}
+
+// addCandidates proposes new entries around the cursor position: immediate successor of the cursor
+// key, extensions, prefix, neighbours by last byte, far ends, cursor-shaped keys, formerly removed keys;
+// for ordered channels combined with the cursor's score, its neighbours, the extremes and random scores.
+func (x *run) addCandidates(cur pos) []pos {
+	m, r := x.m, x.c.R
+	x.seq++
+	base := cur.key
+	ks := []string{base + "\x00", base + "\x00\x00", base + "a", base + "\xff",
+		fmt.Sprintf("zz%04d", x.seq), fmt.Sprintf("\x00%04d", x.seq), fmt.Sprintf("%d\x00%s", r.Range(-3, 3), base)}
+	if len(base) > 1 {
+		ks = append(ks, base[:len(base)-1])
+	}
+	if b := []byte(base); len(b) > 0 {
+		if b[len(b)-1] > 0 {
+			b2 := append([]byte(nil), b...)
+			b2[len(b2)-1]--
+			ks = append(ks, string(b2), string(b2)+"\xff")
+		}
+		if b[len(b)-1] < 0xff {
+			b2 := append([]byte(nil), b...)
+			b2[len(b2)-1]++
+			ks = append(ks, string(b2))
+		}
+	}
+	for i := 0; i < 3 && len(x.pool) > 0; i++ {
+		ks = append(ks, kit.Pick(r, x.pool))
+	}
+	var out []pos
+	seen := map[string]bool{}
+	for _, k := range ks {
+		if _, ok := m.State[k]; ok || k == "" || seen[k] {
+			continue
+		}
+		seen[k] = true
+		if !m.Cfg.Ordered {
+			out = append(out, pos{0, k})
+			continue
+		}
+		scores := []int64{cur.score, math.MinInt64, math.MaxInt64, genScore(r, x.scoreMode), genScore(r, 3)}
+		if cur.score < math.MaxInt64 {
+			scores = append(scores, cur.score+1)
+		}
+		if cur.score > math.MinInt64 {
+			scores = append(scores, cur.score-1)
+		}
+		for _, sc := range scores {
+			out = append(out, pos{sc, k})
+		}
+	}
+	return out
+}
+
+var mutationKinds = []string{
+	"removed_cursor_key", "removed_cursor_key", "removed_next_page_first_key", "removed_returned_key",
+	"readded_cursor_key", "added_before_cursor", "added_at_cursor", "added_after_cursor",
+	"updated_value", "moved_score", "cursor_key_expired",
+}
+
+// mutate changes the state after a page whose last entry is `last` (the cursor position) and before
+// the next page request. done=false: no mutation was possible here.
+func (x *run) mutate(st *between, asc bool, last mm.PubView) (ok, done bool) {
+	c, m, r := x.c, x.m, x.c.R
+	ord := m.Cfg.Ordered
+	dirAsc := asc || !ord
+	suffix := "_unordered"
+	if ord {
+		suffix = "_ordered"
+	}
+	cur := pos{last.Score, last.Key}
+	posOf := func(k string) pos { return pos{m.State[k].Score, k} }
+	atOrBefore := func(p pos) bool { return !sortsBefore(cur, p, ord, dirAsc) }
+	keys := m.SortedKeys(asc) // unordered: byte order
+	idx := sort.Search(len(keys), func(i int) bool { return sortsBefore(cur, posOf(keys[i]), ord, dirAsc) })
+	returned, pending := keys[:idx], keys[idx:]
+	_, curExists := m.State[cur.key]
+
+	note := func(kind, desc string) {
+		c.Count("between_pages_"+kind, 1)
+		c.Count("between_pages_"+kind+suffix, 1)
+		st.log = append(st.log, fmt.Sprintf("after cursor (%d,%q): %s", cur.score, cur.key, desc))
+	}
+	remove := func(k, why string) bool {
+		if !x.step("mutation-", mm.Op{Kind: "remove", Key: k}) {
+			return false
+		}
+		st.open[k] = why
+		x.pool = append(x.pool, k)
+		return true
+	}
+	publish := func(k string, score int64) bool {
+		x.seq++
+		op := mm.Op{Kind: "publish", Key: k, Data: fmt.Sprintf("b%d", x.seq)}
+		if ord {
+			op.Score = score
+		}
+		return x.step("mutation-", op)
+	}
+
+	for try := 0; try < 8; try++ {
+		kind := kit.Pick(r, mutationKinds)
+		switch kind {
+		case "removed_cursor_key":
+			if !curExists {
+				continue
+			}
+			if !remove(cur.key, "removed") {
+				return false, false
+			}
+			note(kind, "removed the cursor key")
+			return true, true
+
+		case "removed_next_page_first_key":
+			if len(pending) == 0 {
+				continue
+			}
+			k := pending[0]
+			if !remove(k, "removed") {
+				return false, false
+			}
+			note(kind, fmt.Sprintf("removed %q, the first key after the cursor", k))
+			return true, true
+
+		case "removed_returned_key":
+			var cands []string
+			for _, k := range returned {
+				if k != cur.key && st.count[k] > 0 {
+					cands = append(cands, k)
+				}
+			}
+			if len(cands) == 0 {
+				continue
+			}
+			k := kit.Pick(r, cands)
+			if !remove(k, "removed") {
+				return false, false
+			}
+			note(kind, fmt.Sprintf("removed %q, returned by an earlier page", k))
+			return true, true
+
+		case "readded_cursor_key":
+			if !curExists {
+				continue
+			}
+			sc := cur.score
+			if ord && r.Chance(1, 3) {
+				sc = genScore(r, x.scoreMode)
+			}
+			if !remove(cur.key, "removed and added again") || !publish(cur.key, sc) {
+				return false, false
+			}
+			st.adds++
+			note(kind, fmt.Sprintf("removed the cursor key and added it again with score %d", sc))
+			return true, true
+
+		case "added_before_cursor", "added_at_cursor", "added_after_cursor":
+			var cands []pos
+			for _, p := range x.addCandidates(cur) {
+				fits := false
+				switch kind {
+				case "added_before_cursor":
+					fits = sortsBefore(p, cur, ord, dirAsc)
+				case "added_after_cursor":
+					fits = sortsBefore(cur, p, ord, dirAsc)
+				default: // ordered: tie with the cursor's score; unordered: the immediate successor of the cursor key
+					fits = (ord && p.score == cur.score) || (!ord && p.key == cur.key+"\x00")
+				}
+				if fits {
+					cands = append(cands, p)
+				}
+			}
+			if len(cands) == 0 {
+				continue
+			}
+			p := kit.Pick(r, cands)
+			if !publish(p.key, p.score) {
+				return false, false
+			}
+			st.adds++
+			if st.start[p.key] {
+				st.open[p.key] = "removed and added again"
+			} else {
+				st.open[p.key] = "added"
+			}
+			side := "before"
+			if sortsBefore(cur, p, ord, dirAsc) {
+				side = "after"
+			}
+			note(kind, fmt.Sprintf("added (%d,%q), which sorts %s the cursor", p.score, p.key, side))
+			return true, true
+
+		case "updated_value":
+			var k, what string
+			switch t := r.Intn(4); {
+			case t == 0 && curExists:
+				k, what = cur.key, "cursor_key"
+			case t == 1 && len(returned) > 0:
+				k, what = kit.Pick(r, returned), "returned_key"
+			case t == 2 && len(pending) > 0:
+				k, what = kit.Pick(r, pending), "pending_key"
+			case t == 3 && len(pending) > 0:
+				k, what = pending[0], "pending_key"
+			default:
+				continue
+			}
+			if !publish(k, m.State[k].Score) {
+				return false, false
+			}
+			c.Count("between_pages_updated_"+what, 1)
+			note(kind, fmt.Sprintf("new value for %s %q (same position)", what, k))
+			return true, true
+
+		case "moved_score":
+			if !ord || len(keys) == 0 {
+				continue
+			}
+			var k string
+			switch t := r.Intn(4); {
+			case t == 0 && curExists:
+				k = cur.key
+			case t == 1 && len(returned) > 0:
+				k = kit.Pick(r, returned)
+			case t == 2 && len(pending) > 0:
+				k = pending[0]
+			default:
+				k = kit.Pick(r, keys)
+			}
+			scores := []int64{cur.score, math.MinInt64, math.MaxInt64, genScore(r, x.scoreMode), genScore(r, 3)}
+			if cur.score < math.MaxInt64 {
+				scores = append(scores, cur.score+1)
+			}
+			if cur.score > math.MinInt64 {
+				scores = append(scores, cur.score-1)
+			}
+			old := posOf(k)
+			nsc := kit.Pick(r, scores)
+			if nsc == old.score {
+				continue
+			}
+			wasRet, isRet := atOrBefore(old), atOrBefore(pos{nsc, k})
+			if !publish(k, nsc) {
+				return false, false
+			}
+			how := ""
+			switch {
+			case wasRet && !isRet:
+				how = "moved_returned_key_behind_cursor"
+				st.open[k] = "moved across the cursor"
+			case !wasRet && isRet:
+				how = "moved_pending_key_in_front_of_cursor"
+				st.open[k] = "moved across the cursor"
+			default:
+				how = "moved_key_on_its_side_of_cursor"
+				st.moved[k] = true
+			}
+			c.Count("between_pages_"+how, 1)
+			note(kind, fmt.Sprintf("score of %q %d -> %d (%s)", k, old.score, nsc, how))
+			return true, true
+
+		case "cursor_key_expired":
+			if m.Cfg.KeyTTLms == 0 || x.ttlBudget <= 0 || !curExists {
+				continue
+			}
+			x.ttlBudget--
+			// every other key gets a deadline 5 s later than the cursor key's, then the clock
+			// moves one sweep period (1 s) past the cursor key's deadline
+			if !x.refreshAll("") {
+				return false, false
+			}
+			time.Sleep(5 * time.Second)
+			if !x.refreshAll(cur.key) {
+				return false, false
+			}
+			wait := m.State[cur.key].ExpireAt + 1001 - time.Now().UnixMilli()
+			time.Sleep(time.Duration(wait) * time.Millisecond)
+			synctest.Wait()
+			expired := false
+			for _, k := range m.Due(time.Now().UnixMilli()) {
+				res := mm.Exec(x.env.Broker, ch, mm.Op{Kind: "read_state", Key: k, Limit: -1}, "")
+				if res.Err == "" && len(res.Pubs) == 0 {
+					m.Expire(k)
+					st.open[k] = "expired"
+					x.pool = append(x.pool, k)
+					if k == cur.key {
+						expired = true
+					} else {
+						c.Count("between_pages_other_key_expired", 1)
+					}
+				}
+			}
+			if !x.refreshAll("") {
+				return false, false
+			}
+			if !expired {
+				c.Count("between_pages_cursor_key_not_expired_in_time", 1)
+				continue
+			}
+			note(kind, "the cursor key expired by TTL")
+			return true, true
+		}
+	}
+	return true, false
+}
+
+// paginateChanging reads the whole state page by page and modifies it between page requests.
+func (x *run) paginateChanging(asc bool, label string, next func() int, estPages int) bool {
+	c, m, r := x.c, x.m, x.c.R
+	ord := m.Cfg.Ordered
+	st := &between{asc: asc, label: label, start: map[string]bool{}, open: map[string]string{}, moved: map[string]bool{}, count: map[string]int{}}
+	for k := range m.State {
+		st.start[k] = true
+	}
+	n0 := len(m.State)
+	bounds := max(1, estPages-1)
+	forced := r.Intn(bounds)
+	cursor := ""
+	seenCur := map[string]bool{}
+	muts := 0
+	for page := 0; ; page++ {
+		if page > n0+st.adds+2 {
+			x.failB(st, "between-pages-pagination-does-not-terminate", fmt.Sprintf("asc=%v sizes=%s: more than %d pages over %d keys and %d additions", asc, label, page, n0, st.adds))
+			return false
+		}
+		limit := next()
+		res := mm.Exec(x.env.Broker, ch, mm.Op{Kind: "read_state", Limit: limit, Asc: asc}, cursor)
+		c.Count("pages_read", 1)
+		c.Count("pages_read_while_state_changes", 1)
+		if res.Err != "" {
+			x.failB(st, "unexpected-error", fmt.Sprintf("ReadState(limit=%d cursor=%q asc=%v): %s", limit, cursor, asc, res.Err))
+			return false
+		}
+		if res.Pos != (mm.Pos{Offset: m.Top, Epoch: m.Epoch}) {
+			x.failB(st, "page-position-differs", fmt.Sprintf("page %d reports position %+v, state is at %d/%s", page, res.Pos, m.Top, m.Epoch))
+			return false
+		}
+		if limit > 0 && len(res.Pubs) > limit {
+			x.failB(st, "page-larger-than-limit", fmt.Sprintf("ReadState(limit=%d) returned %d entries", limit, len(res.Pubs)))
+			return false
+		}
+		if len(res.Pubs) == 0 && res.Cursor != "" {
+			x.failB(st, "between-pages-no-progress", fmt.Sprintf("asc=%v sizes=%s: empty page %d (cursor in %q) with a cursor %q for a next page", asc, label, page, cursor, res.Cursor))
+			return false
+		}
+		st.record(page, limit, cursor, res.Pubs)
+		for i, p := range res.Pubs {
+			if _, ok := m.State[p.Key]; !ok {
+				if _, wasOpen := st.open[p.Key]; !st.start[p.Key] && !wasOpen {
+					x.failB(st, "between-pages-returns-unknown-key", fmt.Sprintf("asc=%v sizes=%s: page %d returned key %q which never existed", asc, label, page, p.Key))
+				} else {
+					x.failB(st, "between-pages-returns-key-removed-before-the-request", fmt.Sprintf("asc=%v sizes=%s: page %d returned key %q which was %s before this page was requested", asc, label, page, p.Key, st.open[p.Key]))
+				}
+				return false
+			}
+			if p != m.View(p.Key) {
+				x.failB(st, "between-pages-entry-not-current", fmt.Sprintf("page %d entry %+v differs from the entry stored when the page was requested %+v", page, p, m.View(p.Key)))
+				return false
+			}
+			if ord && i > 0 && !sortsBefore(pos{res.Pubs[i-1].Score, res.Pubs[i-1].Key}, pos{p.Score, p.Key}, true, asc) {
+				x.failB(st, "between-pages-page-order-differs", fmt.Sprintf("asc=%v: page %d has (%d,%q) before (%d,%q)", asc, page, res.Pubs[i-1].Score, res.Pubs[i-1].Key, p.Score, p.Key))
+				return false
+			}
+			st.count[p.Key]++
+		}
+		if res.Cursor == "" {
+			break
+		}
+		if res.Cursor == cursor || seenCur[res.Cursor] {
+			x.failB(st, "between-pages-cursor-does-not-advance", fmt.Sprintf("asc=%v sizes=%s: page %d returned cursor %q which was already used", asc, label, page, res.Cursor))
+			return false
+		}
+		seenCur[res.Cursor] = true
+		cursor = res.Cursor
+		if page == forced || r.Chance(3, bounds+2) {
+			ok, done := x.mutate(st, asc, res.Pubs[len(res.Pubs)-1])
+			if !ok {
+				return false
+			}
+			if done {
+				muts++
+			}
+		}
+	}
+
+	// verdict over the keys that were in the state before the first page request
+	startKeys := make([]string, 0, len(st.start))
+	for k := range st.start {
+		startKeys = append(startKeys, k)
+	}
+	sort.Strings(startKeys)
+	stable := 0
+	for _, k := range startKeys {
+		n := st.count[k]
+		if why, isOpen := st.open[k]; isOpen {
+			if why == "moved across the cursor" {
+				switch {
+				case n == 0:
+					c.Count("moved_across_cursor_not_seen", 1)
+				case n == 1:
+					c.Count("moved_across_cursor_seen_once", 1)
+				default:
+					c.Count("moved_across_cursor_seen_twice", 1)
+				}
+			}
+			continue
+		}
+		if _, ok := m.State[k]; !ok {
+			x.failB(st, "harness-bug", fmt.Sprintf("key %q vanished from the model without a recorded reason", k))
+			return false
+		}
+		if n == 0 {
+			x.failB(st, "between-pages-skips-key-that-existed-throughout", fmt.Sprintf("asc=%v sizes=%s: key %q (score %d) was in the state before the first page request and still is, it was never removed, and no page returned it (%d mutations between pages, the last: %v)", asc, label, k, m.State[k].Score, len(st.log), st.lastLog(3)))
+			return false
+		}
+		if n > 1 && !st.moved[k] {
+			x.failB(st, "between-pages-duplicates-key-that-did-not-move", fmt.Sprintf("asc=%v sizes=%s: key %q (score %d) kept its position and was returned %d times (%d mutations between pages, the last: %v)", asc, label, k, m.State[k].Score, n, len(st.log), st.lastLog(3)))
+			return false
+		}
+		if n > 1 {
+			c.Count("moved_on_its_side_seen_twice", 1)
+		}
+		stable++
+	}
+	if muts > 0 {
+		c.Count("paginations_with_mutations", 1)
+		if stable > 0 {
+			c.Count("paginations_with_mutations_and_stable_keys", 1)
+		}
+		c.Eval(1)
+	} else {
+		c.Count("paginations_without_mutation", 1)
+	}
+	return true
+}
+
 func runCase(c *kit.Case) {
 	r := c.R
 	cfg := mm.Cfg{Mode: r.Range(1, 3), Ordered: r.Chance(3, 5)}
 	if cfg.Mode != mm.ModePersistent {
 		cfg.KeyTTLms = 3600_000
+		if r.Chance(2, 3) {
+			cfg.KeyTTLms = 20_000 // short enough for several "cursor key expires between pages" rounds
+		}
 	}
 	if cfg.HasStream() {
 		cfg.StreamSize = kit.Pick(r, []int{1, 10, 1000})
@@ -233,22 +834,14 @@ func runCase(c *kit.Case) {
 		synctest.Wait()
 	}()
 	m := mm.NewChan(cfg)
-	x := &run{c: c, env: env, m: m}
+	x := &run{c: c, env: env, m: m, scoreMode: scoreMode}
 	x.detail = map[string]any{"cfg": cfg, "n": n, "score_mode": scoreMode}
 
 	// populate (with churn: re-scored, removed and re-added keys) through the public API
-	now := func() int64 { return time.Now().UnixMilli() }
-	seq := 0
-	apply := func(op mm.Op) bool {
-		res := mm.Exec(env.Broker, ch, op, "")
-		if _, mis := m.Step(op, now(), res); mis != nil {
-			x.fail("populate-"+mis.Class, mis.Msg)
-			return false
-		}
-		return true
-	}
+	apply := func(op mm.Op) bool { return x.step("populate-", op) }
 	pub := func(k string) bool {
-		seq++
+		x.seq++
+		seq := x.seq
 		op := mm.Op{Kind: "publish", Key: k, Data: fmt.Sprintf("d%d", seq)}
 		if cfg.Ordered {
 			op.Score = genScore(r, scoreMode)
@@ -409,6 +1002,34 @@ func runCase(c *kit.Case) {
 			return
 		}
 	}
+	// pagination while the state changes between two page requests: every page size that yields at
+	// least two pages, both directions, then mixed sizes
+	if total >= 2 {
+		x.ttlBudget = 1
+		if cfg.KeyTTLms > 0 && cfg.KeyTTLms <= 60_000 {
+			x.ttlBudget = 3
+		}
+		if !x.refreshAll("") {
+			return
+		}
+		for size := 1; size < total; size++ {
+			for _, asc := range dirs {
+				if !x.paginateChanging(asc, fmt.Sprint(size), fixed(size), (total+size-1)/size) || !x.restore(total) {
+					return
+				}
+			}
+		}
+		hi := max(2, total/3+1)
+		for _, asc := range dirs {
+			for k := 0; k < 2; k++ {
+				if !x.paginateChanging(asc, "mixed", func() int { return r.Range(1, hi) }, 2*total/(1+hi)+1) || !x.restore(total) {
+					return
+				}
+			}
+		}
+		c.Count("cases_with_changing_state", 1)
+	}
+
 	tiesSig := 0
 	if cfg.Ordered {
 		ks := m.SortedKeys(false)
@@ -420,7 +1041,7 @@ func runCase(c *kit.Case) {
 	}
 	c.Nontrivial(fmt.Sprintf("mode%d ord%v n%d sm%d ties%d churn%v", cfg.Mode, cfg.Ordered, total, scoreMode, tiesSig, churn))
 	if c.Index < 6 {
-		c.Sample(map[string]any{"cfg": cfg, "keys_in_state": total, "score_mode": scoreMode, "churn": churn, "state_head_desc": ents, "page_sizes": fmt.Sprintf("1..%d, -1, 0, mixed; asc and desc", total+1)})
+		c.Sample(map[string]any{"cfg": cfg, "keys_in_state": total, "score_mode": scoreMode, "churn": churn, "state_head_desc": ents, "page_sizes": fmt.Sprintf("1..%d, -1, 0, mixed; asc and desc; 1..%d and mixed again with modifications between pages", total+1, max(0, total-1))})
 	}
 }
 
@@ -429,17 +1050,33 @@ func TestC21(t *testing.T) {
 		ID:    "C21",
 		Level: "exploration",
 		Rule: "Each case fills one channel of a standalone MemoryMapBroker (PRNG-chosen mode ephemeral/recoverable/persistent, ordered 3/5) with 0-200 keys through Publish (with churn: re-scored, removed and re-added keys after the broker built its sort cache). Keys mix short strings over small alphabets with NUL/0x01/0xff bytes, multi-byte UTF-8 (incl. NFC/NFD pairs), keys that are prefixes/extensions of each other and keys shaped like ordered cursors; scores are all-equal, few values with ties, extremes (MinInt64, MaxInt64, +-1, 0) or full-range random. " +
-			"Then, with the state unchanged, the state is paginated with EVERY page size 1..n+1, with -1, with random mixed sizes, ascending and descending alternately, Limit=0 is read, and up to ~100 single-key reads (present, removed, never present, prefixes/extensions) are made. One evaluation = one complete pagination. Non-trivial = a completed case; signature = (mode, ordered, keys, score mode, number of ties, churn).",
+			"Then, with the state unchanged, the state is paginated with EVERY page size 1..n+1, with -1, with random mixed sizes, ascending and descending alternately, Limit=0 is read, and up to ~100 single-key reads (present, removed, never present, prefixes/extensions) are made. Finally (states of 2+ keys) the state is paginated again with every page size 1..n-1 and with mixed sizes, ascending and descending, while it CHANGES BETWEEN page requests (about three directed modifications per pagination, at least one where a second page exists): the cursor key (last key of the previous page) is removed, removed and added again, or expires by TTL (virtual clock; all other keys are kept alive with KeyModeIfNew+RefreshTTLOnSuppress), the first key of the next page or a key already returned is removed, a key is added before / at (ordered: tie with the cursor's score; unordered: the immediate byte successor of the cursor key) / after the cursor position, a returned / pending / the cursor key gets a new value, and on ordered channels a new score that moves it on its side of the cursor or across it. Demanded there: keys present from before the first to after the last page request and never removed are returned at least once, exactly once when their position never changed; every returned entry is the one stored when its page was requested; positions, limits, in-page order (ordered), termination and cursor advance as before; the state is brought back to n keys between paginations. One evaluation = one complete pagination. Non-trivial = a completed case; signature = (mode, ordered, keys, score mode, number of ties, churn).",
 		Assumptions: []string{
 			"only the in-memory map broker is covered: no Redis server is available here (the Redis / Lua half of the statement is not checked)",
 			"sort order of ordered channels is (score, key) descending by default and (score, key) ascending with Asc, keys compared bytewise (map_broker.go: MapReadStateOptions.Asc and findOrderedCursorPosition); unordered channels promise no order, so only exactly-once, progress and cursor advance are demanded there (byte order is merely counted)",
 			"Limit>0 means at most that many entries; -1 the whole state; 0 only the position",
 			"'cursor strictly advances' is checked as: no cursor value is returned twice within one pagination and the pagination ends within n+2 pages",
-			"the state does not change during pagination (KeyTTL 1 h, no writers)",
+			"in the first part the state does not change during pagination (KeyTTL 1 h or 20 s, no writers, the clock stands still)",
+			"changing state: modifications and page requests alternate strictly (nothing is concurrent), so a page must show exactly the entries stored at the time of its request; keys added, removed, expired or re-added between the first and the last page request may or may not be returned; an ordered key whose score update carries it across the cursor of that moment may be returned twice (returned, then moved behind the cursor) or not at all (still to come, moved in front of the cursor: the update is what a subscriber receives from the stream) - both merely counted; a key whose score changed without crossing the cursor must still be returned at least once",
+			"the memory broker sweeps expired keys once per second: the cursor key counts as expired when a single-key read no longer returns it one sweep period after its deadline",
+			"mutations on unordered channels are aimed using byte order of the keys (what the memory broker does, counted as unordered_pages_in_byte_order); no verdict depends on the order of an unordered channel",
 		},
-		Cases:           map[string]int{"quick": 1600, "thorough": 16000},
-		Bubble:          true,
-		RequireCounters: []string{"ordered_ties", "extreme_scores", "negative_scores", "nul_keys", "non_ascii_keys", "prefix_keys", "empty_state", "single_key_reads", "single_key_absent", "after_churn", "ordered_channels", "unordered_channels", "pages_read"},
-		Run:             runCase,
+		Cases:  map[string]int{"quick": 1600, "thorough": 16000},
+		Bubble: true,
+		RequireCounters: []string{"ordered_ties", "extreme_scores", "negative_scores", "nul_keys", "non_ascii_keys", "prefix_keys", "empty_state", "single_key_reads", "single_key_absent", "after_churn", "ordered_channels", "unordered_channels", "pages_read",
+			"pages_read_while_state_changes", "paginations_with_mutations_and_stable_keys",
+			"between_pages_removed_cursor_key_unordered", "between_pages_removed_cursor_key_ordered",
+			"between_pages_readded_cursor_key_unordered", "between_pages_readded_cursor_key_ordered",
+			"between_pages_cursor_key_expired_unordered", "between_pages_cursor_key_expired_ordered",
+			"between_pages_removed_next_page_first_key_unordered", "between_pages_removed_next_page_first_key_ordered",
+			"between_pages_removed_returned_key_unordered", "between_pages_removed_returned_key_ordered",
+			"between_pages_added_before_cursor_unordered", "between_pages_added_before_cursor_ordered",
+			"between_pages_added_at_cursor_unordered", "between_pages_added_at_cursor_ordered",
+			"between_pages_added_after_cursor_unordered", "between_pages_added_after_cursor_ordered",
+			"between_pages_updated_value_unordered", "between_pages_updated_value_ordered",
+			"between_pages_updated_cursor_key", "between_pages_updated_returned_key", "between_pages_updated_pending_key",
+			"between_pages_moved_returned_key_behind_cursor", "between_pages_moved_pending_key_in_front_of_cursor", "between_pages_moved_key_on_its_side_of_cursor",
+			"moved_across_cursor_seen_twice", "moved_across_cursor_not_seen"},
+		Run: runCase,
 	})
 }
